@@ -11,19 +11,33 @@ TARGETS = ["Base/Corr.vo", "C11/Model.vo", "C11/Spec.vo", "C11/Dense.vo", "C11/C
            # part 3: sparse matrices (whole matrices)
            "C11/ModelMat.vo", "C11/CorrMat.vo", "C11/ProofsMatSpec.vo", "C11/ProofsMat.vo", "C11/ProofsMatRef.vo",
            "C11/ProofsMatDense.vo", "C11/ProofsMatDense2.vo", "C11/ProofsMatDense3.vo",
-           "C11/PropsMat.vo", "C11/SpecTestMat.vo"]
-PROPS = ["C11/Props.v", "C11/PropsIt.v", "C11/PropsMat.v"]
-PROP_MODULES = [("C11.Props", "C11/Props.v"), ("C11.PropsIt", "C11/PropsIt.v"), ("C11.PropsMat", "C11/PropsMat.v")]
+           "C11/PropsMat.vo", "C11/SpecTestMat.vo",
+           # round 3: dense refinement of EVERY matrix operation, world level, whole histories
+           "C11/DenseMat.vo", "C11/CorrMat2.vo", "C11/ProofsMatDense4.vo", "C11/ProofsMatTip.vo",
+           "C11/ProofsMatSet.vo", "C11/ProofsMatWorld.vo", "C11/ProofsMatOut.vo", "C11/ProofsMatEx.vo",
+           "C11/PropsMat2.vo",
+           # round 3: dense reading of the IterPart / Joint / Joint3 payloads
+           "C11/DensePay.vo", "C11/Corr2.vo", "C11/ProofsDPay.vo", "C11/PropsPay.vo",
+           # round 3: stale iterators in general (moves carry the observed node-validity bit)
+           "C11/ModelIt2.vo", "C11/CorrIt2.vo", "C11/ProofsIt2.vo", "C11/PropsIt2.vo"]
+PROPS = ["C11/Props.v", "C11/PropsIt.v", "C11/PropsMat.v", "C11/PropsMat2.v", "C11/PropsPay.v", "C11/PropsIt2.v"]
+PROP_MODULES = [("C11.Props", "C11/Props.v"), ("C11.PropsIt", "C11/PropsIt.v"), ("C11.PropsMat", "C11/PropsMat.v"),
+                ("C11.PropsMat2", "C11/PropsMat2.v"), ("C11.PropsPay", "C11/PropsPay.v"),
+                ("C11.PropsIt2", "C11/PropsIt2.v")]
 PARTIAL = ("Theorems are about the hand-written models coq/C11/Model.v (vector_sparse_template.in: heap of cells + "
-           "value map + ordered key set standing for the AVL index, justified by C19), ModelIt.v (held iterators) and "
-           "ModelMat.v (sparse matrices, whole matrices only). Element carrier Z. The dense refinement is stated for "
-           "histories in which in-place writes go to vectors holding no scalar shared with another vector (Dense.safe; "
-           "shared-cell writes = known finding C11-SLICEWT). Iterators held across an index-replacing operation "
-           "(ReverseOrder/Sort/Permute) are modelled exactly only when no in-place index edit happened since their "
-           "last move (else Unknown: no prediction); known finding C11-STALEIT. Sparse matrix views (Slice) are C10's "
-           "findings and excluded; for matrices the invariant, reads, iteration and dims are proved for all histories, the dense "
-           "refinement per operation for SetAt/Swap/Reset/SetIdentity/Clone/T/Set(dense source) only "
-           "(PropsMat.mat_refinement_single_step_partial lists the rest). See Props*.v for statements named _partial.")
+           "value map + ordered key set standing for the AVL index, justified by C19), ModelIt.v / ModelIt2.v (held "
+           "iterators) and ModelMat.v (sparse matrices, whole matrices only). Element carrier Z. The dense refinement "
+           "(vectors: all 25 operations; matrices: all 22 operations, world level, whole histories) is stated for "
+           "histories in which in-place writes go to containers holding no scalar shared with another one (Dense.safe / "
+           "DenseMat.msafe; shared-cell writes = known finding C11-SLICEWT, T() sharing = C10 F-SPT-REF). Iterators held "
+           "across an index-replacing operation (ReverseOrder/Sort/Permute, known finding C11-STALEIT) are characterised "
+           "exactly: a stale iterator whose node is valid walks the OLD key set beyond its cursor, an invalid one re-finds "
+           "in the new index; whether the node is valid is an AVL-internal fact the key-set model cannot derive for "
+           "non-fresh iterators: it is read off the implementation (hook VerifC11ItValid) as an input of the move and "
+           "cross-checked against the model wherever the model knows it (K_BADORACLE). Sparse matrix views (Slice) "
+           "are C10's findings and excluded; Row/Col/Diag payloads have no dense reading here. No statement is named "
+           "_partial except the superseded PropsMat.mat_refinement_single_step_partial / mat_write_lists_partial "
+           "(completed by PropsMat2.v).")
 KNOWN_PROPOSED = os.path.join(vlib.ROOT, "corpus/C11/known_findings_proposed.json")
 
 
@@ -153,6 +167,9 @@ def run(ctx):
     ctx.cov["trusted_base"] = vlib.TRUSTED_BASE_COMMON + [
         "hook /repo/verif_c11.go (read-only dump of the private map, nil placeholders and AVL index keys)",
         "hook /repo/verif_c11_mat.go (read-only: the private values vector of a sparse matrix) and C10's VerifC10Header",
+        "hook /repo/verif_c11_it.go (read-only: node validity !Deleted && Value == value of a held iterator; it is an INPUT of "
+        "the stale-iterator model ModelIt2.v, cross-checked where the model knows it)",
+        "C19's AVL model (coq/C19/Model.v) for the tree-level justification of the two stale-iterator branches (PropsIt2.v)",
         "the AVL index is abstracted to its ordered key set (C19's refinement theorem)",
         "axioms: see 'print_assumptions' (expected: closed under the global context)"]
     ctx.cov["partial"] = PARTIAL
@@ -171,18 +188,21 @@ def run(ctx):
     nh = 90 if ctx.tier == "quick" else 900
     bad_held = corr_part(ctx, binary, "held", nh, os.path.join(vlib.ROOT, "corpus/C11/held_corpus.jsonl"),
                          "iterators held across mutations")
+    bad_held2 = corr_part(ctx, binary, "held2", nh, os.path.join(vlib.ROOT, "corpus/C11/held2_corpus.jsonl"),
+                          "stale iterators moved with the observed validity bit")
     bad_mat = corr_part(ctx, binary, "mat", nh, os.path.join(vlib.ROOT, "corpus/C11/mat_corpus.jsonl"),
-                        "sparse matrices")
+                        "sparse matrices + dense matrix model")
     known(ctx, binary)
     h0 = hunt(ctx, binary, bad)
     broken = [f["target"] for f in failures] + (["correspondence C11.Corr.check"] if bad else []) + \
              (["correspondence C11.CorrIt (held iterators)"] if bad_held else []) + \
+             (["correspondence C11.CorrIt2 (stale iterators)"] if bad_held2 else []) + \
              (["correspondence C11.CorrMat (sparse matrices)"] if bad_mat else [])
     if h0:
         ctx.violation({"case": h0["case"], "failure": h0["failure"], "at": h0["at"], "broken": broken}, True,
                       "sparse vector violates coherence / dense agreement / iteration: " + h0["failure"])
         return
-    h1 = hunt_part(ctx, binary, "heldhunt", bad_held, 3000 if ctx.tier == "quick" else 30000)
+    h1 = hunt_part(ctx, binary, "heldhunt", bad_held + bad_held2, 3000 if ctx.tier == "quick" else 30000)
     if h1:
         ctx.violation({"case": h1["case"], "failure": h1["failure"], "at": h1.get("at"), "broken": broken,
                        "part": "held"}, True,
@@ -207,6 +227,11 @@ def run(ctx):
                        "obligation": "correspondence C11.CorrMat (sparse-matrix model vs implementation)"},
                       False, "sparse-matrix model and implementation disagree on a history (%d of them), but no "
                       "history violating the property itself was found" % len(bad_mat))
+    if bad_held2:
+        ctx.violation({"case": bad_held2[0], "part": "held2",
+                       "obligation": "correspondence C11.CorrIt2.check_it2 (stale-iterator model vs implementation)"},
+                      False, "stale-iterator model and implementation disagree on a history (%d of them), but no "
+                      "history violating the property itself was found" % len(bad_held2))
     if bad_held:
         ctx.violation({"case": bad_held[0], "part": "held",
                        "obligation": "correspondence C11.CorrIt.check_it (held-iterator model vs implementation)"},
@@ -224,16 +249,17 @@ def replay(ctx, path):
         ok, failures = vlib.proof_stage(ctx, TARGETS, PROPS)
         return 0 if ok else 1
     part = rp.get("part")
-    if part in ("held", "mat"):
+    if part in ("held", "held2", "mat"):
         # additional parts: `--extra <part> --replay` writes <part>replay_*.v, `--extra <part>hunt` judges the property
         vlib.sh([binary, "--extra", part, "--replay", path, "--out", ctx.dir], env=vlib.go_env())
-        pat = "heldreplay_*.v" if part == "held" else "replay_mat_*.v"
+        pat = {"held": "heldreplay_*.v", "held2": "held2replay_*.v", "mat": "replay_mat_*.v"}[part]
+        hpart = "held" if part == "held2" else part   # same history format; the oracle does not need the bit
         res = vlib.eval_shards(sorted(glob.glob(os.path.join(ctx.dir, pat))))
-        hin = os.path.join(ctx.dir, part + "hunt_in.json")
+        hin = os.path.join(ctx.dir, hpart + "hunt_in.json")
         case = dict(rp["case"]); case.pop("outs", None)
         json.dump({"cases": [case]}, open(hin, "w"))
-        vlib.sh([binary, "--extra", part + "hunt", "--replay", hin, "--n", "0", "--out", ctx.dir], env=vlib.go_env())
-        h = json.load(open(os.path.join(ctx.dir, part + "hunt.json")))
+        vlib.sh([binary, "--extra", hpart + "hunt", "--replay", hin, "--n", "0", "--out", ctx.dir], env=vlib.go_env())
+        h = json.load(open(os.path.join(ctx.dir, hpart + "hunt.json")))
         agree = bool(res) and all(r["ok"] for r in res)
         print("model/implementation agree on the replayed history (%s): %s" % (part, agree))
         print("property oracle on the implementation: %s" % (h["failure"] if h.get("found") else "holds"))
